@@ -123,6 +123,8 @@ def run(an: Analysis, rep):
                     else f"{n_obj} abstract objects reachable from the result, all allocated during the call", config=cfg)
     from .common import purity
     rep.run(purity, an, rep, "R12.P", list(API))
+    from .common import process_state_rule as _psr12
+    rep.run(_psr12, an, rep, "R12.S", list(API))
     from . import c11 as _c11p
     from .common import SharedRules as _SR12
     rep.run(_c11p.r119, an, _SR12(rep, "R12.E", "the flag enumeration is never called on an input value (shared with C11's R11.9): on 3.7 - 3.10 that registers a pseudo-member in the class, "
